@@ -83,11 +83,20 @@ func rulesC09(c *Ctx) {
 			}
 		}
 		c.CallSites(len(callsIn(ci.fn)))
+		// closures of the checker that may write (a per-reference callback handed to a shared scan): decided on
+		// their own paths, with the fix flag and the sink as they captured them
+		guardedClosure := map[*ssa.Function]bool{}
 		if len(ci.fn.AnonFuncs) > 0 {
 			for _, a := range ci.fn.AnonFuncs {
-				if sum.May(a) {
-					c.Undecided("C09.READONLY", name+": closure "+FnName(a), p.Pos(a.Pos()), "a closure inside CheckIntegrity may write; closures are not path-analysed")
+				if !sum.May(a) {
+					continue
 				}
+				if ok, why := closureWritesGuarded(c, ci, a, isW, sum); ok {
+					guardedClosure[a] = true
+					c.OK("C09.READONLY", name+": closure "+FnName(a), p.Pos(a.Pos()), why)
+					continue
+				}
+				c.Undecided("C09.READONLY", name+": closure "+FnName(a), p.Pos(a.Pos()), "a closure inside CheckIntegrity may write and its writes are not all under the captured fix flag")
 			}
 		}
 		ff := p.FuncFlow()
@@ -230,6 +239,22 @@ func rulesC09(c *Ctx) {
 						c.Bad("C09.REPORT", construct, p.Pos(w.in.Pos()), "deferred repair loop without a report and without a tabled reason")
 					}
 					continue
+				}
+			}
+			// a call of one of this checker's own closures, decided above
+			if !w.in.Common().IsInvoke() {
+				if targets := p.FuncFlow().Resolve(w.in.Common().Value, 0); len(targets) > 0 {
+					all := true
+					for _, t := range targets {
+						if !guardedClosure[t] {
+							all = false
+						}
+					}
+					if all {
+						c.OK("C09.READONLY", construct, p.Pos(w.in.Pos()), "calls a closure of this checker whose writes are all under the captured fix flag")
+						c.OK("C09.REPORT", construct, p.Pos(w.in.Pos()), "repair made and reported inside the closure")
+						continue
+					}
 				}
 			}
 			// helper that receives the fix flag: decided inside the helper (one level of inlining per call,
@@ -913,4 +938,102 @@ func ruleC09Dangling(c *Ctx) {
 	}
 	c.CallSites(n)
 	c.Floor("C09.DANGLING", 1)
+}
+
+// closureWritesGuarded: every call in closure a (a closure of checker ci) that may write is dominated by the
+// captured fix flag being true, and every continuation of such a repair reaches a call of the captured sink
+// before the closure returns successfully.
+func closureWritesGuarded(c *Ctx, ci checkIntegrityImpl, a *ssa.Function, isW func(ssa.Instruction) bool, sum *Summary) (bool, string) {
+	// which free variables stand for the checker's fix flag / sink
+	capturedAs := func(target ssa.Value) map[*ssa.FreeVar]bool {
+		out := map[*ssa.FreeVar]bool{}
+		for _, b := range ci.fn.Blocks {
+			for _, in := range b.Instrs {
+				mk, ok := in.(*ssa.MakeClosure)
+				if !ok || mk.Fn != ssa.Value(a) {
+					continue
+				}
+				for i, bv := range mk.Bindings {
+					if i >= len(a.FreeVars) {
+						continue
+					}
+					if bv == target {
+						out[a.FreeVars[i]] = true
+						continue
+					}
+					if al, isAl := bv.(*ssa.Alloc); isAl && al.Referrers() != nil {
+						n, from := 0, false
+						for _, r := range *al.Referrers() {
+							if st, isSt := r.(*ssa.Store); isSt && st.Addr == ssa.Value(al) {
+								n++
+								from = st.Val == target
+							}
+						}
+						if n == 1 && from {
+							out[a.FreeVars[i]] = true
+						}
+					}
+				}
+			}
+		}
+		return out
+	}
+	fixVars, sinkVars := capturedAs(ci.fix), capturedAs(ci.sink)
+	if len(fixVars) == 0 {
+		return false, ""
+	}
+	isVar := func(v ssa.Value, set map[*ssa.FreeVar]bool) bool {
+		if fv, ok := v.(*ssa.FreeVar); ok {
+			return set[fv]
+		}
+		if ld, ok := v.(*ssa.UnOp); ok && ld.Op == token.MUL {
+			if fv, ok := ld.X.(*ssa.FreeVar); ok {
+				return set[fv]
+			}
+		}
+		return false
+	}
+	fi := ComputeFacts(a)
+	isSink := func(in ssa.Instruction) bool {
+		call, ok := in.(ssa.CallInstruction)
+		return ok && isVar(call.Common().Value, sinkVars)
+	}
+	ei := errorResultIndex(a.Signature)
+	n := 0
+	for _, call := range callsIn(a) {
+		may := isW(call)
+		if !may {
+			may, _ = sum.CallMay(call.Common())
+		}
+		if !may {
+			continue
+		}
+		n++
+		if !fi.HoldsWhere(call.Block(), func(f Fact) bool { return f.Kind == "true" && f.Pol && isVar(f.V, fixVars) }) {
+			return false, ""
+		}
+		ri := reachWithoutFrom(a, call, isSink)
+		sameBlock := false
+		for i := instrIndex(call) + 1; i < len(call.Block().Instrs); i++ {
+			if isSink(call.Block().Instrs[i]) {
+				sameBlock = true
+			}
+		}
+		if !sameBlock && ei >= 0 {
+			for _, r := range returnsOf(a) {
+				if ri.ReachesSuccess(r, ei) {
+					return false, ""
+				}
+			}
+		}
+	}
+	if len(a.AnonFuncs) > 0 {
+		for _, inner := range a.AnonFuncs {
+			if sum.May(inner) {
+				return false, ""
+			}
+		}
+	}
+	c.Analysed(FnName(a))
+	return true, fmt.Sprintf("all %d write(s) in the closure are dominated by the captured fix flag and followed by a report through the captured sink", n)
 }
